@@ -417,6 +417,10 @@ def keq(a, b):
         return False
     if isinstance(a, Digest) and isinstance(b, Digest):
         try:
+            return _model_hash(a.payload) == _model_hash(b.payload)
+        except Unknown:
+            pass
+        try:
             same = keq(a.payload, b.payload)
         except Unknown:
             same = False
@@ -460,6 +464,30 @@ def keq(a, b):
 SYM_ATOMS_INJECTIVE = False   # harness promise: atoms with different keys denote different strings
 
 
+def _model_hash(p):
+    """CPython's value model of hash() as far as the library can observe it: small ints hash to themselves except
+    hash(-1) == hash(-2); tuples combine element hashes; distinct strings / objects are assumed not to collide."""
+    if isinstance(p, bool):
+        return int(p)
+    if isinstance(p, int):
+        return -2 if p == -1 else p
+    if isinstance(p, float) and p == int(p):
+        return _model_hash(int(p))
+    if p is None:
+        return ("none",)
+    if isinstance(p, str):
+        return ("s", p)
+    if isinstance(p, SymStr):
+        return ("sym", p.norm())
+    if isinstance(p, Seq) and p.kind == "tuple" and not p.has_seg():
+        return ("t",) + tuple(_model_hash(x) for x in p.items)
+    if isinstance(p, (Obj, ClassV, Func, Builtin, Callback)):
+        return ("id", id(p))
+    if isinstance(p, Tok):
+        return ("tok", p.eqclass)
+    raise Unknown("hash of " + repr(p))
+
+
 def symstr_eq(a, b):
     pa = a.parts if isinstance(a, SymStr) else ([a] if isinstance(a, str) and a else [])
     pb = b.parts if isinstance(b, SymStr) else ([b] if isinstance(b, str) and b else [])
@@ -469,6 +497,22 @@ def symstr_eq(a, b):
     nb = tuple(p if isinstance(p, str) else p.key() for p in pb)
     if na == nb:
         return True
+    if len(na) == len(nb) and len(pa) == len(pb):
+        # atoms that are injective functions of their payload (canonical JSON text, default repr / hex(id) of distinct live objects)
+        differs = False
+        for x, y in zip(pa, pb):
+            if isinstance(x, str) or isinstance(y, str):
+                if x != y:
+                    differs = None
+                    break
+            elif x.key() != y.key():
+                if x.kind == y.kind and x.kind in ("Json", "HexId", "Repr", "UuidHex"):
+                    differs = True
+                else:
+                    differs = None
+                    break
+        if differs:
+            return False
     if SYM_ATOMS_INJECTIVE and len(na) == len(nb):
         same_shape = all((isinstance(x, str) and isinstance(y, str) and x == y) or (not isinstance(x, str) and not isinstance(y, str)) for x, y in zip(na, nb))
         if same_shape:
